@@ -118,7 +118,7 @@ def strategy(ctx, shard=0):
 
 
 def budget(ctx):
-    return dict(max_examples=ctx.pick(480, 7200), shards=24)
+    return dict(max_examples=ctx.pick(480, 28000), shards=24)
 
 
 def warmup():
